@@ -1,6 +1,46 @@
 (* What each reaction does to the run component Rn. *)
 From AJ Require Import Common.Util Run.RModel Run.RFacts.
 
+(* number of jobs of a list that are not forever *)
+Definition nonforever (c : cfg) (l : list nat) : nat :=
+  length (filter (fun j => negb (j_forever (jc c j))) l).
+Definition nfinite (c : cfg) (n : nat) : nat := nonforever c (members c n).
+Definition crit_exc (c : cfg) (s : state) (j : nat) : bool := j_crit (jc c j) && is_exc (st (Jb s j)).
+
+(* the jobs that a main wake reporting d creates *)
+Definition eligible (c : cfg) (s : state) (n : nat) (d : list nat) (x : nat) : Prop :=
+  In x (members c n) /\ st (Jb s x) = Idle /\ all_done s (reqs c x) = true /\
+  exists q, In q (reqs c x) /\ In q d.
+
+(* exact description of what the main wake of scheduler n that reports d does to its run record *)
+Definition main_upd (c : cfg) (s s' : state) (n : nat) (d : list nat) : Prop :=
+  let r := Rn s n in let r' := Rn s' n in
+  seen r' = seen r ++ d /\ rcanc r' = rcanc r /\
+  ((exists w, (ph r' = PTidy w \/ ph r' = PShut w) /\ pend r' = diff (pend r) d /\
+      (ph r' = PShut w -> diff (pend r) d = []) /\
+      match w with
+      | WTimeout => d = [] /\ ndone r' = ndone r
+      | WCritical => d <> [] /\ existsb (crit_exc c s) d = true /\ ndone r' = ndone r
+      | WSuccess => d <> [] /\ existsb (crit_exc c s) d = false /\
+                    ndone r' = ndone r + nonforever c d /\ ndone r' = nfinite c n
+      end)
+   \/
+   (ph r' = PMain /\ d <> [] /\ existsb (crit_exc c s) d = false /\
+    ndone r' = ndone r + nonforever c d /\ ndone r' <> nfinite c n /\
+    exists new, pend r' = diff (pend r) d ++ new /\ NoDup new /\ (forall x, In x new <-> eligible c s n d x))).
+
+(* an actor step other than a main wake keeps the bookkeeping and follows the phase order *)
+Definition kept (s s' : state) (m : nat) : Prop :=
+  seen (Rn s' m) = seen (Rn s m) /\ ndone (Rn s' m) = ndone (Rn s m) /\
+  (forall w, ph (Rn s m) = PShut w -> ph (Rn s' m) = PShut w \/ ph (Rn s' m) = POver) /\
+  (forall w, ph (Rn s m) = PTidy w -> ph (Rn s' m) = PTidy w \/ ph (Rn s' m) = PShut w \/ ph (Rn s' m) = POver) /\
+  (ph (Rn s m) = PMain -> ph (Rn s' m) = PCTidy \/ ph (Rn s' m) = POver) /\
+  (ph (Rn s m) = PCTidy -> ph (Rn s' m) = PCTidy \/ ph (Rn s' m) = POver).
+
+Lemma kept_over s s' m : ph (Rn s' m) = POver -> seen (Rn s' m) = seen (Rn s m) ->
+  ndone (Rn s' m) = ndone (Rn s m) -> kept s s' m.
+Proof. intros H1 H2 H3. unfold kept. rewrite H1. repeat split; auto. Qed.
+
 (* [actor e m]: e is a control event of the run of scheduler m *)
 Definition actor (e : event) (m : nat) : Prop :=
   match e with
@@ -36,6 +76,8 @@ Inductive reff (c : cfg) (s s' : state) (m : nat) (act : Prop) : Prop :=
     (ph (Rn s m) <> PMain -> ph (Rn s' m) <> PMain) ->
     (ph (Rn s' m) = PCTidy \/ rcanc (Rn s' m) = true ->
      (ph (Rn s m) = PCTidy \/ rcanc (Rn s m) = true) \/ cp (Jb s m) = true) ->
+    (kept s s' m
+     \/ (ph (Rn s m) = PMain /\ exists d, seteqb d (filter (jfin s) (pend (Rn s m))) = true /\ NoDup d /\ main_upd c s s' m d)) ->
     reff c s s' m act.
 
 Lemma neq_vac (m n : nat) (P : Prop) : m <> n -> m = n -> P.
@@ -59,11 +101,82 @@ Proof.
   rewrite H, Rn_setR_same. reflexivity.
 Qed.
 
+Lemma seen_end_cancelled c n s :
+  seen (Rn (fst (end_cancelled c n s)) n) = seen (Rn s n) /\ ndone (Rn (fst (end_cancelled c n s)) n) = ndone (Rn s n).
+Proof.
+  unfold end_cancelled. cbn [fst].
+  pose proof (Rn_job_leave_q c n Cancelled (set_phase s n POver) n) as (_ & _ & H1 & H2 & _).
+  rewrite H1, H2, ph_set_phase, Nat.eqb_refl. auto.
+Qed.
+
+Lemma seen_finish_run c n w r cu s :
+  seen (Rn (fst (finish_run c n w r cu s)) n) = seen (Rn s n) /\ ndone (Rn (fst (finish_run c n w r cu s)) n) = ndone (Rn s n).
+Proof.
+  unfold finish_run. cbn [fst].
+  match goal with |- context [job_leave c n ?x ?S0] =>
+    pose proof (Rn_job_leave_q c n x S0 n) as (_ & _ & H1 & H2 & _) end.
+  rewrite H1, H2, Rn_setR_same. auto.
+Qed.
+
 Lemma cmode_same (s s' : state) (m : nat) (P : Prop) :
   ph (Rn s' m) <> PCTidy -> rcanc (Rn s' m) = rcanc (Rn s m) ->
   ph (Rn s' m) = PCTidy \/ rcanc (Rn s' m) = true ->
   (ph (Rn s m) = PCTidy \/ rcanc (Rn s m) = true) \/ P.
 Proof. intros H1 H2 [H|H]; [contradiction|]. left. right. rewrite <- H2. exact H. Qed.
+
+Lemma Rn_exit_main_n c n w p s v :
+  Rn (fst (exit_main c n w p (setR s n v))) n =
+  mkRst (match p with [] => PShut w | _ => PTidy w end) (pend v) (seen v) (ndone v) (qsz v)
+        (expi v) (tbeg v) (fto v) (fcr v) (rcanc v).
+Proof. rewrite Rn_exit_main, ph_set_phase, Nat.eqb_refl, Rn_setR_same. reflexivity. Qed.
+
+Lemma react_main_upd c n d s : ph (Rn s n) = PMain -> main_upd c s (fst (react_main c n d s)) n d.
+Proof.
+  intros HphM. unfold main_upd, react_main. cbn zeta.
+  set (r := Rn s n). set (pend' := diff (pend r) d).
+  assert (Hex : forall w v, pend v = pend' -> seen v = seen r ++ d ->
+     let r' := Rn (fst (exit_main c n w pend' (setR s n v))) n in
+     seen r' = seen r ++ d /\ (ph r' = PTidy w \/ ph r' = PShut w) /\ pend r' = pend' /\
+     (ph r' = PShut w -> pend' = []) /\ ndone r' = ndone v /\ rcanc r' = rcanc v).
+  { intros w v Hv Hs. cbn zeta. rewrite Rn_exit_main_n. cbn [seen ph pend ndone rcanc].
+    repeat split; auto.
+    - destruct pend'; auto.
+    - destruct pend'; [reflexivity|discriminate]. }
+  destruct d as [|d0 d'] eqn:Ed.
+  - match goal with |- context [exit_main c n WTimeout pend' (setR s n ?v)] =>
+      destruct (Hex WTimeout v eq_refl eq_refl) as (A & B & C & D & E & F) end.
+    split; [exact A|]. split; [exact F|]. left. exists WTimeout. repeat split; auto.
+  - rewrite <- Ed in *. assert (Hne : d <> []) by (rewrite Ed; discriminate). clear Ed.
+    fold (crit_exc c s).
+    change (fun j : nat => j_crit (jc c j) && is_exc (st (Jb s j))) with (crit_exc c s).
+    destruct (existsb (crit_exc c s) d) eqn:Ecrit.
+    + match goal with |- context [exit_main c n WCritical pend' (setR s n ?v)] =>
+        destruct (Hex WCritical v eq_refl eq_refl) as (A & B & C & D & E & F) end.
+      split; [exact A|]. split; [exact F|]. left. exists WCritical. repeat split; auto.
+    + fold (nonforever c d). fold (nfinite c n).
+      change (length (filter (fun j : nat => negb (j_forever (jc c j))) d)) with (nonforever c d).
+      change (length (filter (fun j : nat => negb (j_forever (jc c j))) (members c n))) with (nfinite c n).
+      destruct (Nat.eqb_spec (ndone r + nonforever c d) (nfinite c n)) as [Ecnt|Ecnt].
+      * match goal with |- context [exit_main c n WSuccess pend' (setR s n ?v)] =>
+          destruct (Hex WSuccess v eq_refl eq_refl) as (A & B & C & D & E & F) end.
+        split; [exact A|]. split; [exact F|]. left. exists WSuccess. repeat split; auto.
+        rewrite E. cbn [ndone]. exact Ecnt.
+      * cbn [fst]. rewrite Rn_setR_same. cbn [seen ph pend ndone rcanc].
+        split; [reflexivity|]. split; [reflexivity|]. right.
+        set (cand := filter _ (members c n)). set (new := filter _ cand).
+        split; [exact HphM|]. split; [exact Hne|]. split; [reflexivity|]. split; [reflexivity|].
+        split; [exact Ecnt|].
+        exists new. split; [reflexivity|]. split.
+        -- unfold new, cand. apply NoDup_filter. apply NoDup_filter. unfold members.
+           apply NoDup_filter. apply NoDup_seqn.
+        -- intros x. unfold new, cand, eligible. rewrite !filter_In. split.
+           ++ intros [[Hm Hq] Hst]. split; [exact Hm|].
+              destruct (st (Jb s x)) eqn:Est; try discriminate. split; [reflexivity|]. split; [exact Hst|].
+              apply existsb_exists in Hq. destruct Hq as [q [Hq1 Hq2]]. exists q. split; auto.
+              apply memb_In. exact Hq2.
+           ++ intros (Hm & Hst & Hd & q & Hq1 & Hq2). rewrite Hst. split; [|exact Hd].
+              split; [exact Hm|]. apply existsb_exists. exists q. split; auto. apply memb_In. exact Hq2.
+Qed.
 
 Lemma reff_begin c s n m : wf c = true -> sched_id c n = true ->
   (if rootb n then match ph (Rn s n) with PIdle => true | _ => false end
@@ -115,71 +228,65 @@ Proof.
     + apply RE_q; [|apply neq_vac; exact Hmn]. rewrite Rn_setR_other by exact Hmn. rewrite Rn_mapJ. apply Hq0.
 Qed.
 
+Lemma Rn_react_main_other c n d s m : m <> n -> Rn (fst (react_main c n d s)) m = Rn s m.
+Proof.
+  intros Hmn. unfold react_main.
+  assert (Hex : forall w p v, Rn (fst (exit_main c n w p (setR s n v))) m = Rn s m).
+  { intros w p v. rewrite Rn_exit_main, ph_set_phase. apply Nat.eqb_neq in Hmn. rewrite Hmn.
+    apply Nat.eqb_neq in Hmn. apply Rn_setR_other. exact Hmn. }
+  destruct d as [|d0 d']; [apply Hex|].
+  destruct (existsb _ (d0 :: d')); [apply Hex|].
+  destruct (Nat.eqb _ _); [apply Hex|].
+  cbn [fst]. rewrite Rn_setR_other by exact Hmn. reflexivity.
+Qed.
+
+Lemma st_react_main_self c n d s : wf c = true ->
+  st (Jb (fst (react_main c n d s)) n) = st (Jb s n) /\ ran (Jb (fst (react_main c n d s)) n) = ran (Jb s n).
+Proof.
+  intros W. unfold react_main.
+  assert (Hex : forall w p v, st (Jb (fst (exit_main c n w p (setR s n v))) n) = st (Jb s n) /\
+                              ran (Jb (fst (exit_main c n w p (setR s n v))) n) = ran (Jb s n)).
+  { intros w p v. rewrite Jb_exit_main, Jb_setR. destruct (memb n p); [|auto].
+    unfold cancel_j. destruct (finished (st (Jb s n))); auto. }
+  destruct d as [|d0 d']; [apply Hex|].
+  destruct (existsb _ (d0 :: d')); [apply Hex|].
+  destruct (Nat.eqb _ _); [apply Hex|].
+  cbn [fst Jb setR]. rewrite Jb_mapJ.
+  match goal with |- context [memb n ?new] => assert (Hne : memb n new = false) end.
+  { apply memb_false. intro Hin. apply filter_In in Hin. destruct Hin as [Hin _].
+    apply filter_In in Hin. destruct Hin as [Hin _]. apply (member_neq c n n W Hin). reflexivity. }
+  rewrite Hne. auto.
+Qed.
+
 Lemma reff_main c s n d m : wf c = true -> run_alive c s n false = true -> ph (Rn s n) = PMain ->
+  seteqb d (filter (jfin s) (pend (Rn s n))) && nodupb d = true ->
   reff c s (fst (react_main c n d s)) m (m = n).
 Proof.
-  intros W Ha Hph. destruct (run_alive_false _ _ _ Ha) as (Hs & Hn & Hr).
-  unfold react_main.
-  set (r := Rn s n). set (pend' := diff (pend r) d).
-  assert (Hsub : forall y, In y pend' -> In y (pend (Rn s n))).
-  { intros y Hy. apply In_diff in Hy. tauto. }
-  assert (Hexit : forall w v, pend v = pend' -> rcanc v = rcanc (Rn s n) ->
-            reff c s (fst (exit_main c n w pend' (setR s n v))) m (m = n)).
-  { intros w v Hv Hrc. destruct (Nat.eq_dec m n) as [->|Hmn].
-    - assert (Ephn : ph (Rn (fst (exit_main c n w pend' (setR s n v))) n) =
-                     match pend' with [] => PShut w | _ => PTidy w end).
-      { rewrite Rn_exit_main, ph_set_phase, Nat.eqb_refl. reflexivity. }
-      assert (P5 : ph (Rn s n) <> PMain -> ph (Rn (fst (exit_main c n w pend' (setR s n v))) n) <> PMain)
-        by (intros _; rewrite Ephn; destruct pend'; discriminate).
-      assert (P6 : ph (Rn (fst (exit_main c n w pend' (setR s n v))) n) = PCTidy \/
-                   rcanc (Rn (fst (exit_main c n w pend' (setR s n v))) n) = true ->
-                   (ph (Rn s n) = PCTidy \/ rcanc (Rn s n) = true) \/ cp (Jb s n) = true).
-      { apply cmode_same; [rewrite Ephn; destruct pend'; discriminate|].
-        rewrite Rn_exit_main, ph_set_phase, Nat.eqb_refl. cbn [rcanc]. rewrite Rn_setR_same. exact Hrc. }
-      apply RE_actor; auto.
-      + intros Hn0. apply Hr. exact Hn0.
-      + rewrite Hph. discriminate.
-      + rewrite Ephn. destruct pend'; discriminate.
-      + intros Hn0. left. rewrite Jb_exit_main, Jb_setR.
-        assert (Hst : st (if memb n pend' then cancel_j (Jb s n) else Jb s n) = Running).
-        { destruct (memb n pend'); [rewrite cancel_j_st0|]; apply Hr; exact Hn0. }
-        rewrite Hst, Ephn. split; [reflexivity|]. destruct pend'; split; discriminate.
-      + intros y. rewrite Rn_exit_main, ph_set_phase, Nat.eqb_refl. cbn [pend].
-        rewrite Rn_setR_same, Hv. intros Hy. left. apply Hsub. exact Hy.
-    - apply RE_q; [|apply neq_vac; exact Hmn].
-      rewrite Rn_exit_main, ph_set_phase. apply Nat.eqb_neq in Hmn. rewrite Hmn.
-      apply Nat.eqb_neq in Hmn. rewrite Rn_setR_other by exact Hmn. apply same_but_q_refl. }
-  destruct d as [|d0 d'] eqn:Ed.
-  - apply Hexit; reflexivity.
-  - rewrite <- Ed in *. clear Ed.
-    destruct (existsb _ d) eqn:Ecrit; [apply Hexit; reflexivity|].
-    destruct (Nat.eqb _ _) eqn:Ecnt; [apply Hexit; reflexivity|].
-    cbn [fst]. set (cand := filter _ (members c n)). set (new := filter _ cand).
-    destruct (Nat.eq_dec m n) as [->|Hmn].
-    + match goal with |- reff c s ?S' n _ =>
-        assert (P5 : ph (Rn s n) <> PMain -> ph (Rn S' n) <> PMain)
-          by (intros H; exfalso; apply H; exact Hph);
-        assert (P6 : ph (Rn S' n) = PCTidy \/ rcanc (Rn S' n) = true ->
-                     (ph (Rn s n) = PCTidy \/ rcanc (Rn s n) = true) \/ cp (Jb s n) = true)
-          by (apply cmode_same; rewrite Rn_setR_same; cbn [ph rcanc]; fold r; unfold r;
-              [rewrite Hph; discriminate|reflexivity])
-      end.
-      apply RE_actor; auto.
-      * intros Hn0. apply Hr. exact Hn0.
-      * rewrite Hph. discriminate.
-      * rewrite Rn_setR_same. cbn [ph]. fold r. unfold r. rewrite Hph. discriminate.
-      * intros Hn0. left. rewrite Rn_setR_same. cbn [ph Jb setR]. rewrite Jb_mapJ.
-        assert (Hne : memb n new = false).
-        { apply memb_false. intro Hin. unfold new in Hin. apply filter_In in Hin. destruct Hin as [Hin _].
-          unfold cand in Hin. apply filter_In in Hin. destruct Hin as [Hin _].
-          apply (member_neq c n n W Hin). reflexivity. }
-        rewrite Hne. fold r. unfold r. rewrite Hph. split; [apply Hr; exact Hn0|]. split; discriminate.
-      * rewrite Rn_setR_same. cbn [pend]. intros y Hy. apply in_app_iff in Hy. destruct Hy as [Hy|Hy].
-        -- left. apply Hsub. exact Hy.
-        -- right. unfold new in Hy. apply filter_In in Hy. destruct Hy as [Hy _].
-           unfold cand in Hy. apply filter_In in Hy. tauto.
-    + apply RE_q; [|apply neq_vac; exact Hmn].
-      rewrite Rn_setR_other by exact Hmn. rewrite Rn_mapJ. apply same_but_q_refl.
+  intros W Ha Hph G12. destruct (run_alive_false _ _ _ Ha) as (Hs & Hn & Hr).
+  destruct (Nat.eq_dec m n) as [->|Hmn].
+  2:{ apply RE_q; [|apply neq_vac; exact Hmn]. rewrite Rn_react_main_other by exact Hmn. apply same_but_q_refl. }
+  pose proof (react_main_upd c n d s Hph) as U.
+  destruct (st_react_main_self c n d s W) as [Hst Hran].
+  apply andb_true_iff in G12. destruct G12 as [G12a G12b]. apply nodupb_spec in G12b.
+  set (s' := fst (react_main c n d s)) in *.
+  destruct U as (U1 & U2 & U3).
+  assert (Hph' : ph (Rn s' n) <> PIdle /\ ph (Rn s' n) <> POver /\ ph (Rn s' n) <> PCTidy).
+  { destruct U3 as [(w & [Hw|Hw] & _)|(Hw & _)]; rewrite Hw; repeat split; discriminate. }
+  destruct Hph' as (P1 & P2 & P3).
+  apply RE_actor.
+  - reflexivity.
+  - intros Hn0. apply Hr. exact Hn0.
+  - rewrite Hph. discriminate.
+  - exact P1.
+  - intros Hn0. left. rewrite Hst. split; [apply Hr; exact Hn0|]. auto.
+  - intros y Hy. destruct U3 as [(w & _ & Hp & _)|(_ & _ & _ & _ & _ & new & Hp & _ & Hnew)].
+    + rewrite Hp in Hy. apply In_diff in Hy. left. tauto.
+    + rewrite Hp in Hy. apply in_app_iff in Hy. destruct Hy as [Hy|Hy].
+      * apply In_diff in Hy. left. tauto.
+      * right. apply Hnew in Hy. destruct Hy as [Hy _]. exact Hy.
+  - intros H. exfalso. apply H. exact Hph.
+  - apply cmode_same; auto.
+  - right. split; [exact Hph|]. exists d. repeat split; auto.
 Qed.
 
 Lemma reff_end_cancelled c s s0 n m :
@@ -193,6 +300,8 @@ Proof.
     assert (P6 : ph (Rn (fst (end_cancelled c n s0)) n) = PCTidy \/ rcanc (Rn (fst (end_cancelled c n s0)) n) = true ->
                  (ph (Rn s n) = PCTidy \/ rcanc (Rn s n) = true) \/ cp (Jb s n) = true)
       by (apply cmode_same; [rewrite H1; discriminate|rewrite rcanc_end_cancelled, E; reflexivity]).
+    assert (P7 : kept s (fst (end_cancelled c n s0)) n).
+    { destruct (seen_end_cancelled c n s0) as [S1 S2]. apply kept_over; [exact H1|rewrite S1, E|rewrite S2, E]; reflexivity. }
     apply RE_actor; auto.
     + rewrite H1. discriminate.
     + intros Hn0. right. rewrite Jb_end_cancelled. apply Nat.eqb_neq in Hn0.
@@ -212,6 +321,8 @@ Proof.
     assert (P6 : ph (Rn (fst (finish_run c n w r cu s0)) n) = PCTidy \/ rcanc (Rn (fst (finish_run c n w r cu s0)) n) = true ->
                  (ph (Rn s n) = PCTidy \/ rcanc (Rn s n) = true) \/ cp (Jb s n) = true)
       by (apply cmode_same; [rewrite H1; discriminate|rewrite rcanc_finish_run, E; reflexivity]).
+    assert (P7 : kept s (fst (finish_run c n w r cu s0)) n).
+    { destruct (seen_finish_run c n w r cu s0) as [S1 S2]. apply kept_over; [exact H1|rewrite S1, E|rewrite S2, E]; reflexivity. }
     apply RE_actor; auto.
     + rewrite H1. discriminate.
     + intros Hn0. right. rewrite Jb_finish_run. apply Nat.eqb_neq in Hn0.
@@ -239,8 +350,13 @@ Proof.
         assert (P6 : ph (Rn S' n) = PCTidy \/ rcanc (Rn S' n) = true ->
                      (ph (Rn s n) = PCTidy \/ rcanc (Rn s n) = true) \/ cp (Jb s n) = true)
           by (apply cmode_same; [rewrite Ephn; discriminate|
-              rewrite Rn_shutdown_start, ph_set_phase, Nat.eqb_refl; reflexivity])
+              rewrite Rn_shutdown_start, ph_set_phase, Nat.eqb_refl; reflexivity]);
+        assert (P7 : kept s S' n)
       end.
+      { unfold kept. rewrite Ephn. rewrite Rn_shutdown_start, ph_set_phase, Nat.eqb_refl. cbn [seen ndone].
+        unfold why_of. rewrite Hph.
+        repeat split; auto; try (intros; discriminate).
+        intros w' Hw'. inversion Hw'; subst. auto. }
       apply RE_actor; auto.
       * intros Hn0. apply Hr. exact Hn0.
       * rewrite Hph. discriminate.
@@ -329,8 +445,11 @@ Proof.
           by (intros _; rewrite Rn_setR_same; discriminate);
         assert (P6 : ph (Rn S' n) = PCTidy \/ rcanc (Rn S' n) = true ->
                      (ph (Rn s n) = PCTidy \/ rcanc (Rn s n) = true) \/ cp (Jb s n) = true)
-          by (intros _; right; exact Hcp)
+          by (intros _; right; exact Hcp);
+        assert (P7 : kept s S' n)
       end.
+      { unfold kept. rewrite Rn_setR_same. cbn [seen ndone ph]. rewrite Rn_clear_cp, Hph.
+        repeat split; auto; intros; discriminate. }
       apply RE_actor; auto.
       * rewrite Hph. discriminate.
       * rewrite Rn_setR_same. discriminate.
@@ -353,8 +472,11 @@ Proof.
         by (intros _; rewrite Rn_setR_same; cbn [ph]; rewrite Rn_clear_cp, Hph; discriminate);
       assert (P6 : ph (Rn S' n) = PCTidy \/ rcanc (Rn S' n) = true ->
                    (ph (Rn s n) = PCTidy \/ rcanc (Rn s n) = true) \/ cp (Jb s n) = true)
-        by (intros _; right; exact Hcp)
+        by (intros _; right; exact Hcp);
+      assert (P7 : kept s S' n)
     end.
+    { unfold kept. rewrite Rn_setR_same. cbn [seen ndone ph]. rewrite Rn_clear_cp, Hph.
+      repeat split; auto; try (intros; discriminate). }
     apply RE_actor; auto.
     + rewrite Hph. discriminate.
     + rewrite Rn_setR_same. cbn [ph]. rewrite Rn_clear_cp, Hph. discriminate.
@@ -385,6 +507,9 @@ Proof.
       assert (Hphs : exists w, ph (Rn s n) = PShut w).
       { unfold sd_inline in Ein. destruct (ph (Rn s n)) as [| | |w| |]; try discriminate. exists w. reflexivity. }
       destruct Hphs as [w Hw].
+      assert (P7 : kept s (fst (react_shut_cancel c n (setR s0 n v))) n).
+      { unfold kept. rewrite Ephn, ER, Rn_setR_same. unfold v, s0. cbn [seen ndone]. rewrite Rn_clear_cp, Hw.
+        repeat split; auto; try (intros; discriminate). }
       apply RE_actor; auto.
       * rewrite Ephn. exact Hph.
       * intros _. left. rewrite EJ, Ephn. destruct (st_clear_cp s n) as [B _]. unfold s0. rewrite B, Hst, Hw.
@@ -406,7 +531,8 @@ Proof.
   destruct e as [n o|n k d o|n k o|n o|j|j oc|j|j|j|j|j|j|j|j|t|t|jv sv]; cbn [reaction actor].
   - split_guards Hg. apply reff_begin; assumption.
   - destruct k; cbn [reaction].
-    + split_guards Hg. apply reff_main; [assumption|assumption|]. destruct (ph (Rn s n)); try discriminate. reflexivity.
+    + split_guards Hg. apply reff_main; [assumption|assumption| |apply andb_true_iff; split; assumption].
+      destruct (ph (Rn s n)); try discriminate. reflexivity.
     + split_guards Hg. apply reff_tidy; [assumption|].
       destruct (ph (Rn s n)) as [| |w| | |]; try discriminate. exists w. reflexivity.
     + split_guards Hg. destruct (run_alive_false _ _ _ G) as (Hs & Hn & Hr).
